@@ -11,13 +11,21 @@ Theorem dur_roundtrip : forall s : Z, dur_decode (dur_encode_s s) = Some (s * 10
 Proof. exact dur_roundtrip_s. Qed.
 Print Assumptions dur_roundtrip.
 
-(* on any microsecond count what comes back is the value truncated toward zero to whole seconds (the encoder drops the fraction) *)
-Theorem dur_roundtrip_trunc : forall us : Z, dur_decode (dur_encode us) = Some (Z.quot us 1000000 * 1000000)%Z.
+(* ... and on every microsecond count (repaired encoder, fixes/F71: the sub-second part is written as .ffffff) *)
+Theorem dur_roundtrip_us : forall us : Z, dur_decode (dur_encode us) = Some us.
 Proof. exact dur_decode_encode. Qed.
-Print Assumptions dur_roundtrip_trunc.
+Print Assumptions dur_roundtrip_us.
 
-(* the encoded string is in the lexical space -?P(nD)?(T(nH)?(nM)?(n(.f)?S)?)? and denotes the (truncated) value *)
-Theorem dur_lexical_thm : forall us : Z, xsd_dur (dur_encode us) (Z.quot us 1000000 * 1000000)%Z /\ dur_lexical (dur_encode us) = true.
+(* pinned encoder (F71): the fraction is dropped, what comes back is the value truncated toward zero to whole seconds *)
+Theorem dur_roundtrip_pinned_truncates : forall us : Z, dur_decode (dur_encode_pinned us) = Some (Z.quot us 1000000 * 1000000)%Z.
+Proof. exact dur_pinned_truncates. Qed.
+Print Assumptions dur_roundtrip_pinned_truncates.
+Theorem dur_roundtrip_us_refuted : exists us : Z, dur_decode (dur_encode_pinned us) <> Some us.
+Proof. exists 1500000%Z. vm_compute. discriminate. Qed.
+Print Assumptions dur_roundtrip_us_refuted.
+
+(* the encoded string is in the lexical space -?P(nD)?(T(nH)?(nM)?(n(.f)?S)?)? and denotes the value *)
+Theorem dur_lexical_thm : forall us : Z, xsd_dur (dur_encode us) us /\ dur_lexical (dur_encode us) = true.
 Proof. exact dur_encode_lexical_lemma. Qed.
 Print Assumptions dur_lexical_thm.
 
@@ -54,6 +62,12 @@ Theorem dur_float_exact_us : forall us : Z, (0 <= us < 3600000000 * 2^21)%Z ->
   Ztrunc (RN (IZR us / IZR (60 * 60 * 1000000))) = (us / 3600000000)%Z.
 Proof. exact dur_float_hours_us. Qed.
 Print Assumptions dur_float_exact_us.
+Theorem dur_float_exact_minutes_us : forall a : Z, (0 <= a < 3600000000)%Z -> Ztrunc (RN (IZR a / IZR (60 * 1000000))) = (a / 60000000)%Z.
+Proof. exact dur_float_minutes_us. Qed.
+Print Assumptions dur_float_exact_minutes_us.
+Theorem dur_float_exact_seconds_us : forall a : Z, (0 <= a < 60000000)%Z -> Ztrunc (RN (IZR a / IZR 1000000)) = (a / 1000000)%Z.
+Proof. exact dur_float_seconds_us. Qed.
+Print Assumptions dur_float_exact_seconds_us.
 Example dur_float_example : (0 <= 86399999999999 < 3600 * 2^41)%Z.   (* timedelta.max in seconds meets the bound *)
 Proof. split; vm_compute; [discriminate | reflexivity]. Qed.
 
@@ -115,7 +129,7 @@ Print Assumptions hex_decode_sound_refuted.
 
 (* ---------------------------------------------------------------- the property at full strength *)
 Definition C18_full : Prop :=
-  (forall s : Z, dur_decode (dur_encode_s s) = Some (s * 1000000)%Z /\ dur_lexical (dur_encode_s s) = true) /\
+  (forall us : Z, dur_decode (dur_encode us) = Some us /\ dur_lexical (dur_encode us) = true) /\
   (forall t v, dur_decode t = Some v <-> xsd_dur t v) /\
   (forall d, valid_dt d = true -> datetime_decode (datetime_encode d) = Some d /\ (whole_minute (tz d) = true -> datetime_lexical (datetime_encode d) = true)) /\
   (forall y m d, valid_date y m d = true -> date_decode (date_encode y m d) = Some (mkdt y m d 0 0 0 0 None) /\ date_lexical (date_encode y m d) = true) /\
@@ -126,8 +140,8 @@ Definition C18_full : Prop :=
 Theorem C18_codecs : C18_full.
 Proof.
   repeat split.
-  - apply dur_roundtrip_s.
-  - unfold dur_encode_s. apply dur_encode_lexical_lemma.
+  - apply dur_decode_encode.
+  - apply dur_encode_lexical_lemma.
   - apply dur_decode_sound_lemma.
   - apply dur_decode_complete_lemma.
   - now apply datetime_roundtrip_lemma.
